@@ -1,6 +1,7 @@
 import XvcPipeData.Schema
 import XvcPipeData.Invalidate
 import XvcPipeData.Reader
+import XvcPipeData.ExportFile
 /-!
   Line-protocol driver `pipedata <mode>`: one request per line on stdin, one canonical answer per
   line on stdout.
@@ -139,6 +140,42 @@ partial def invLoop (h out : IO.FS.Stream) (st : Inval.DState) : IO Unit := do
     out.putStrLn ans
     invLoop h out st'
 
+/-! ## writefile mode
+
+  `pipedata writefile`: request `<create 0|1> <truncate 0|1> <old> <doc>`; contents are decimal bytes
+  joined by `.`, `-` the empty content, and `A` (only for `old`) nothing at the path.  Answer: the
+  content of the file after `open` with these options + `write_all(doc)` (`ExportFile.openWrite`), or
+  `enoent`; `code` instead of the two flags asks for `ExportFile.writeFile` (the options of
+  `fs::write`, what `cmd_export` calls). -/
+
+def parseBytes (s : String) : Option (List Nat) :=
+  if s == "-" then some [] else (s.splitOn ".").mapM String.toNat?
+
+def showBytes (l : List Nat) : String :=
+  if l.isEmpty then "-" else ".".intercalate (l.map toString)
+
+def writefileStep (line : String) : String :=
+  let old? (s : String) : Option (Option (List Nat)) := if s == "A" then some none else (parseBytes s).map some
+  match line.trimAscii.toString.splitOn " " with
+  | ["code", old, doc] =>
+    match old? old, parseBytes doc with
+    | some o, some d => showBytes (ExportFile.writeFile o d)
+    | _, _ => "bad-op"
+  | [c, t, old, doc] =>
+    match old? old, parseBytes doc with
+    | some o, some d =>
+      match ExportFile.openWrite { create := c == "1", truncate := t == "1" } o d with
+      | some r => showBytes r
+      | none => "enoent"
+    | _, _ => "bad-op"
+  | _ => "bad-op"
+
+partial def writefileLoop (h out : IO.FS.Stream) : IO Unit := do
+  let line ← h.getLine
+  if line.isEmpty then return ()
+  out.putStrLn (writefileStep line)
+  writefileLoop h out
+
 /-! ## reader mode -/
 
 def parseSym (t : String) : Option Reader.Sym :=
@@ -176,4 +213,5 @@ def main (args : List String) : IO Unit := do
   | ["schema"] => schemaLoop stdin stdout {}
   | ["invalidate"] => invLoop stdin stdout {}
   | ["reader"] => readerLoop stdin stdout
-  | _ => IO.eprintln "usage: pipedata schema|invalidate|reader"
+  | ["writefile"] => writefileLoop stdin stdout
+  | _ => IO.eprintln "usage: pipedata schema|invalidate|reader|writefile"
